@@ -1,5 +1,14 @@
 """C07 — how the parallel (dask) path of an observation is CODED -> `src_cfg : dask_cfg` (Model/Parallel.v).
 
+Round 2c: every function is read in NORMAL FORM (translator/c07_norm.py) and the rows anchor on API calls, parameters
+and attribute / subscript stores, comparing RESOLVED expressions -- never the name of a local variable, the statement
+layout, a helper boundary, a message or a comment.  Accepted as equal: private helpers of the same module / class inlined;
+single-assignment aliases and named intermediate results; module-level constants; guard clauses and inverted tests with
+swapped branches; conditional expression vs if/else assignment; `x = A` + `if c: x = B`; loops filling a fresh dict / list
+vs comprehensions vs dict(zip()); zip(count(), x) vs enumerate(x); list(map(f, x)); match vs if/elif; try/else-return;
+a trailing `continue`; annotations, docstrings, asserts, imports, logging.  The shapes below are written in that normal
+form (the local names in them are only illustrations).
+
 Extracted (every other shape fails closed):
 
  binding of values to parameter keys
@@ -60,7 +69,7 @@ from __future__ import annotations
 import ast
 from pathlib import Path
 
-from .c07_norm import Fn, Mod, leaves, match, pat
+from .c07_norm import Fn, Mod, leaves, match, normalise, pat
 from .common import HEADER, body_no_doc, fail, find_func, parse
 
 DASK = "pyxel/observation/observation_dask.py"
@@ -793,7 +802,7 @@ def _rebuilt(val, state: str, gtab, attr: str):
     return kept
 
 
-def _hook_row(cls: ast.ClassDef, ancestors=()):
+def _hook_row(cls: ast.ClassDef, ancestors=(), mods=None):
     """the row of one class: its own hooks or the nearest inherited ones (ancestors = the scanned base classes, nearest
     first), judged against every attribute the __init__ of the class and of its ancestors set"""
     chain = [cls, *ancestors]
@@ -807,6 +816,15 @@ def _hook_row(cls: ast.ClassDef, ancestors=()):
     gs, ss = meths.get("__getstate__"), meths.get("__setstate__")
     if gs is None and ss is None:
         return None
+    if mods:
+        # the hooks are read in normal form (private helpers inlined, annotations / logging / docstrings dropped, guard
+        # clauses, loops filling a fresh dict as comprehensions)
+        def normal(fn):
+            owner = next((c for c in chain if fn in c.body), None)
+            if fn is None or owner is None or id(owner) not in mods:
+                return fn
+            return normalise(fn, mods[id(owner)], owner.name, KEEP)
+        gs, ss = normal(gs), normal(ss)
     inits = [n for c in chain for n in c.body if isinstance(n, ast.FunctionDef) and n.name == "__init__"]
     if not inits:
         fail(cls, f"class {cls.name} has pickle hooks but no __init__ among the scanned classes")
@@ -917,6 +935,7 @@ def _hook_row(cls: ast.ClassDef, ancestors=()):
 
 def pickle_rows(repo: Path):
     classes: dict = {}
+    mods: dict = {}
     for d in PICKLE_DIRS:
         base = repo / d
         if not base.is_dir():
@@ -924,7 +943,10 @@ def pickle_rows(repo: Path):
         for f in sorted(base.rglob("*.py")):
             rel = str(f.relative_to(repo))
             tree = parse(repo, rel)
+            mod = Mod(tree)
             for n in ast.walk(tree):
+                if isinstance(n, ast.ClassDef):
+                    mods[id(n)] = mod
                 if isinstance(n, ast.Call) and u(n.func) in ("copyreg.pickle", "copyreg.constructor"):
                     fail(n, f"{rel}: copyreg registration")
                 if isinstance(n, ast.ClassDef):
@@ -945,7 +967,7 @@ def pickle_rows(repo: Path):
 
     rows = []
     for name in sorted(classes):
-        row = _hook_row(classes[name][0], ancestors(classes[name][0], (name,)))
+        row = _hook_row(classes[name][0], ancestors(classes[name][0], (name,)), mods)
         if row is not None:
             rows.append(row)
     return rows
@@ -957,8 +979,12 @@ GROUP = "pyxel/pipelines/model_group.py"
 def group_runs_enabled_row(tree) -> bool:
     """ModelGroup.__iter__ yields the models whose `enabled` is set, in the order of self.models, and ModelGroup.run
     executes what iterating over the group yields (`for model in self: ... model(detector)`)"""
-    it = find_func(tree, "__iter__", "ModelGroup")
-    body = body_no_doc(it)
+    fit = fn_of(tree, "__iter__", "ModelGroup")
+    it = fit.node
+    body = [st for st in it.body if not (isinstance(st, ast.Assign) and isinstance(st.targets[0], ast.Name))]   # aliases are resolved
+    for n in ast.walk(it):
+        if isinstance(n, (ast.For, ast.comprehension)) and hasattr(n.iter, "_pos"):
+            n.iter = fit.R(n.iter)
     ok = False
 
     def filtered(gen, elt) -> bool:
@@ -982,8 +1008,9 @@ def group_runs_enabled_row(tree) -> bool:
         ok = isinstance(g, (ast.GeneratorExp, ast.ListComp)) and filtered(g.generators, g.elt)
     if not ok:
         fail(it, "ModelGroup.__iter__ must yield the models of self.models whose `enabled` is set, in order")
-    run = find_func(tree, "run", "ModelGroup")
-    loops = [n for n in ast.walk(run) if isinstance(n, ast.For) and u(n.iter) == "self"]
+    frun = fn_of(tree, "run", "ModelGroup")
+    run = frun.node
+    loops = [n for n in ast.walk(run) if isinstance(n, ast.For) and u(frun.R(n.iter)) == "self"]
     if len(loops) != 1 or not isinstance(loops[0].target, ast.Name):
         fail(run, "ModelGroup.run must execute `for model in self`")
     v = loops[0].target.id
@@ -991,7 +1018,7 @@ def group_runs_enabled_row(tree) -> bool:
              and [u(a) for a in n.args] + [u(k.value) for k in n.keywords] == ["detector"]]
     if len(execs) != 1:
         fail(loops[0], "ModelGroup.run must call every model it iterates over exactly once with the detector")
-    if any(isinstance(n, ast.For) and n is not loops[0] and u(n.iter) in ("self.models", "self") for n in ast.walk(run)):
+    if any(isinstance(n, ast.For) and n is not loops[0] and u(frun.R(n.iter)) in ("self.models", "self") for n in ast.walk(run)):
         fail(run, "a second loop over the models in ModelGroup.run")
     return True
 
